@@ -173,7 +173,11 @@ DoNeg(S, a) == LET ox == S.objs[a.x]
                IN Put(Forget(S, a.z), a.z, [fmt |-> ox.fmt, codes |-> CodesOf(qs), cfg |-> DefaultCfg, st |-> FoldQ(qs)])
 \* y = x >> 1 with shifting = trunc/keep, y = ~x: built on a DEEP copy of x (Config and status copied, flags included)
 DoRShiftKeep(S, a) == LET ox == S.objs[a.x] IN
-   Put(Forget(S, a.y), a.y, [ox EXCEPT !.codes = [k \in DOMAIN ox.codes |-> ox.codes[k] \div 2]])
+   Put(Forget(S, a.y), a.y, [ox EXCEPT !.codes = [k \in DOMAIN ox.codes |-> ox.codes[k] \div (2^a.n)]])
+\* y = x << n with shifting = trunc/keep: a NEW object of the same sizes with a default Config (clamps), flags of that store only
+DoLShiftKeep(S, a) == LET ox == S.objs[a.x]
+                          qs == [k \in DOMAIN ox.codes |-> N!Quantize(N!ValueOf(ox.codes[k] * (2^a.n), ox.fmt), ox.fmt, "trunc", "saturate")]
+                      IN Put(Forget(S, a.y), a.y, [fmt |-> ox.fmt, codes |-> CodesOf(qs), cfg |-> DefaultCfg, st |-> FoldQ(qs)])
 DoInvert(S, a) == LET ox == S.objs[a.x] IN
    Put(Forget(S, a.y), a.y, [ox EXCEPT !.codes = [k \in DOMAIN ox.codes |-> N!FromImage(N!PatToNat(N!PatNot(N!Pattern(ox.codes[k], ox.fmt.w))), ox.fmt)]])
 DoDrop(S, a) == Forget(Put(S, a.x, NULL), a.x)
@@ -190,6 +194,7 @@ Step(S, a) == CASE a.act = "New" -> DoNew(S, a)           [] a.act = "Store" -> 
                 [] a.act = "BinOp" -> DoBinOp(S, a)       [] a.act = "Neg" -> DoNeg(S, a)
                 [] a.act = "BinOpOut" -> DoBinOpOut(S, a)
                 [] a.act = "RShiftKeep" -> DoRShiftKeep(S, a) [] a.act = "Invert" -> DoInvert(S, a)
+                [] a.act = "LShiftKeep" -> DoLShiftKeep(S, a)
                 [] a.act = "Drop" -> DoDrop(S, a)
 \* callbacks a recorder registered on the written object sees during the step
 CbStep(S, a) == CASE a.act = "Store" -> CbOf(FoldQ([j \in DOMAIN a.ks |-> Q(a.ks[j], S.objs[a.x].fmt, S.objs[a.x].cfg)]))
@@ -237,7 +242,8 @@ Enabled(S) ==
           /\ (S.objs[r.z].fmt.s \/ ~(S.objs[r.x].fmt.s \/ S.objs[r.y].fmt.s))          \* a signed result cannot go into an unsigned out (the code raises)
           /\ LenOf(S, r.z) = (IF LenOf(S, r.x) >= LenOf(S, r.y) THEN LenOf(S, r.x) ELSE LenOf(S, r.y)) } ELSE {},
      IF "Neg" \in Acts THEN { [act |-> "Neg", z |-> z, x |-> x] : z \in { v \in Obj : Free(S, v) }, x \in Live(S) } ELSE {},
-     IF "RShiftKeep" \in Acts THEN { [act |-> "RShiftKeep", y |-> y, x |-> x] : y \in { z \in Obj : Free(S, z) }, x \in Live(S) } ELSE {},
+     IF "RShiftKeep" \in Acts THEN { [act |-> "RShiftKeep", y |-> y, x |-> x, n |-> n] : y \in { z \in Obj : Free(S, z) }, x \in Live(S), n \in {0, 1} } ELSE {},
+     IF "LShiftKeep" \in Acts THEN { [act |-> "LShiftKeep", y |-> y, x |-> x, n |-> n] : y \in { z \in Obj : Free(S, z) }, x \in Live(S), n \in {0, 1} } ELSE {},
      IF "Invert" \in Acts THEN { [act |-> "Invert", y |-> y, x |-> x] : y \in { z \in Obj : Free(S, z) }, x \in Live(S) } ELSE {},
      IF "Drop" \in Acts THEN { [act |-> "Drop", x |-> x] : x \in Live(S) } ELSE {}
    }
@@ -269,7 +275,7 @@ ViewsOnly == \A b \in st.mem : \A e1 \in b, e2 \in b : st.objs[e1[1]].codes[e1[2
 \* C20 (behavioural): a step changes what OTHER objects show only through shared memory of an indexed write
 Target(l) == IF l.act \in {"New", "Store", "SetItem", "SetItemFxp", "Resize", "Reset", "SetCfg", "SetCfgBad", "Assign", "Drop"} THEN l.x
              ELSE IF l.act = "BinOpOut" THEN l.z
-             ELSE IF l.act \in {"GetItem", "CtorLike", "Like", "LikeShallow", "CopyShallow", "DeepCopy", "RShiftKeep", "Invert"} THEN l.y
+             ELSE IF l.act \in {"GetItem", "CtorLike", "Like", "LikeShallow", "CopyShallow", "DeepCopy", "RShiftKeep", "LShiftKeep", "Invert"} THEN l.y
              ELSE IF l.act \in {"BinOp", "Neg"} THEN l.z ELSE NULL
 NonInterference == [][ \A p \in Obj : (p # Target(last') /\ st.objs[p] # NULL /\ st'.objs[p] # st.objs[p])
                           => (last'.act = "SetItem" /\ \E b \in st.mem : <<last'.x, last'.j>> \in b /\ \E k \in DOMAIN st.objs[p].codes : <<p, k>> \in b) ]_vars
@@ -280,7 +286,7 @@ ViewWriteThrough == [][ (last'.act = "SetItem") =>
 \* C20: an invalid configuration value changes nothing
 BadConfigRejected == [][ last'.act = "SetCfgBad" => st' = st ]_vars
 \* C04: flags are sticky until reset()
-Creates(l) == l.act \in {"New", "GetItem", "CtorLike", "Like", "LikeShallow", "CopyShallow", "DeepCopy", "BinOp", "Neg", "Drop", "RShiftKeep", "Invert"}
+Creates(l) == l.act \in {"New", "GetItem", "CtorLike", "Like", "LikeShallow", "CopyShallow", "DeepCopy", "BinOp", "Neg", "Drop", "RShiftKeep", "LShiftKeep", "Invert"}
 \* (SetItemFxp is a write: flags sticky, callbacks exact)
 Sticky == [][ \A p \in Obj : (/\ st.objs[p] # NULL /\ st'.objs[p] # NULL
                                /\ ~(Creates(last') /\ Target(last') = p)           \* p is the same object before and after
@@ -303,7 +309,7 @@ FlagIff == [][ last'.act \in {"Store", "SetItem"} =>
 \* C04: results of arithmetic carry the inaccuracy flag whenever an operand carried it
 InaccPropagates == [][ last'.act \in {"BinOp", "BinOpOut"} => ((st.objs[last'.x].st.i \/ st.objs[last'.y].st.i) => st'.objs[last'.z].st.i) ]_vars
 \* C10/C20: deriving never changes the source
-SourceUnchanged == [][ last'.act \in {"CtorLike", "Like", "DeepCopy", "GetItem", "BinOp", "Neg", "RShiftKeep", "Invert"} =>
+SourceUnchanged == [][ last'.act \in {"CtorLike", "Like", "DeepCopy", "GetItem", "BinOp", "Neg", "RShiftKeep", "LShiftKeep", "Invert"} =>
                          \A p \in Obj \ {Target(last')} : st'.objs[p] = st.objs[p] ]_vars
 \* export of behaviours for the replay harness: TLC evaluates invariants on every generated state, before duplicate
 \* detection, so this prints one behaviour per TRANSITION of the bounded model (a complete transition cover)
